@@ -179,6 +179,15 @@ class Algebra:
                 if axis is None and rest:
                     axis = rest[0]
                 per_column = axis is not None and tm.is_const(axis, 0)
+                nd = getattr(self, "ndim", None)
+                if axis is not None and (tm.is_const(axis, -1) or tm.is_const(axis, 1)):
+                    # the LAST axis: the rows themselves for a one-column (1-D) array, the COLUMNS of each row for several
+                    if tm.is_const(axis, -1) and (nd == 1 or _one_dim(rnf)):
+                        per_column = True
+                    else:
+                        # several columns are possible (nd == 2, or a fact array whose column count the configuration
+                        # leaves open): the reduction runs across the columns of each row - not the per-column value
+                        return {("ACROSSCOLUMNS", _freeze(self._sum(R, rnf))): 1}
                 if axis is not None and not per_column and not (axis == tm.NONE):
                     raise Unknown("reduction over axis %s" % tm.show(axis)[:20])
                 lin = self._sum(R, rnf)
